@@ -77,6 +77,9 @@ class Ctx:
         self.tier = tier
         self.seed = seed
         self._cache: Dict[str, object] = {}
+        from . import strlang
+
+        strlang.PROG = self.prog
 
     # convenience -----------------------------------------------------------
     def cls(self, qual: str) -> Optional[ClassInfo]:
